@@ -285,9 +285,9 @@ def gen_k_plan(run_seed: int, hashseed: int = 0, catalogue=None, p_backend_c: fl
     # hypersparse runs: indexes that are stored at compressed levels only get dimensions whose
     # products leave int32 (each one fits; so does every stored-element count).  Drawn after
     # everything else; the inputs of such a run are re-drawn from a forked generator.
-    if huge and rng.random() < 0.12:
+    if huge and rng.random() < 0.3:
         r2 = random.Random(rng.getrandbits(64))
-        pick = huge if r2.random() < 0.6 else [r2.choice(huge)]
+        pick = huge if r2.random() < 0.75 else [r2.choice(huge)]
         for c in pick:
             v = r2.choice(HUGE_SIZES)
             for x, cx in prob["classes"].items():
